@@ -46,6 +46,9 @@ class Cell:
         self.mem = int(attrs.get("mem", "10"))
         self.cls = attrs.get("cls", "K")           # N = native replay available, K = kani only
         self.unwindset = attrs.get("unwindset", "")
+        # per-loop bounds by pattern: "regex:N,regex:N" - loop ids (mangled, hash-dependent) are discovered from CBMC's
+        # "Not unwinding loop <id>" lines of a first cheap run and matched against the patterns, then the query is re-run
+        self.unwindre = attrs.get("unwindre", "")
         self.extra = attrs.get("extra", "")         # extra seed group etc.
         self.expect_unsat_covers = int(attrs.get("unsat_covers", "0"))
         self.ignore_re = attrs.get("ignore_re", "")   # engine artefacts (documented per cell) matched on "function|description"
@@ -246,6 +249,43 @@ def build(scratch, first_harness=None):
 # --------------------------------------------------------------------------
 
 def run_cell(scratch, cell, extra_cbmc=None, tag=""):
+    if not cell.unwindre:
+        return run_cell_once(scratch, cell, extra_cbmc, tag)
+    pats = [(re.compile(x.rsplit(":", 1)[0]), int(x.rsplit(":", 1)[1])) for x in cell.unwindre.split(",")]
+    found = {}
+    total = 0.0
+    res = None
+    for attempt in range(4):
+        uw = list(extra_cbmc or [])
+        if found:
+            sets = ([cell.unwindset] if cell.unwindset else []) + [f"{k}:{v}" for k, v in sorted(found.items())]
+            uw += ["--unwindset", ",".join(sets)]
+        saved, cell.unwindset = cell.unwindset, ("" if found else cell.unwindset)
+        try:
+            res = run_cell_once(scratch, cell, uw, tag)
+        finally:
+            cell.unwindset = saved
+        total += res["wall_s"]
+        if res["verdict"] != "UNWIND":
+            break
+        try:
+            text = Path(res["log"]).read_text(errors="replace")
+        except OSError:
+            break
+        new = False
+        for lid in set(re.findall(r"Not unwinding loop (\S+) iteration", text)):
+            for rx, n in pats:
+                if rx.search(lid) and found.get(lid) != n:
+                    found[lid] = n
+                    new = True
+        if not new:
+            break
+    res["wall_s"] = round(total, 2)
+    res["unwindset_discovered"] = found
+    return res
+
+
+def run_cell_once(scratch, cell, extra_cbmc=None, tag=""):
     src = scratch / "divan"
     base = f"{cell.file.stem}.{cell.fn}{tag}"
     log = scratch / (base + ".log")
